@@ -21,7 +21,7 @@ func c17(r *Report, s *Sem) {
 	R1 := r.Rule("R1", "one channel per dispatch: in the dispatch loop the session context, every stream/done accessor of the select and the Sender handed to each handler function all derive from the loop function's single channel parameter", 8)
 	R2 := r.Rule("R2", "context keys: the session context stores the channel's id, remote node and local node under three distinct keys of an unexported type, and each exported getter loads the key under which a value of its asserted type was stored", 6)
 	R3 := r.Rule("R3", "fresh identity: every server channel is built from a session id generated in the same loop iteration and the transport just dequeued, and the serving goroutine captures that iteration's channel", 3)
-	R5 := r.Rule("R5", "shared-state inventory: no package-level variable written at run time can hold a channel, transport, node or session id (the listener registry holds listeners only), and the mux's handler tables are written only by registration methods", 2)
+	R5 := r.Rule("R5", "shared-state inventory: no package-level variable written at run time can hold a channel, transport, node or session id (the listener registry holds listeners only), per-session code touches no package-level container (pool, cache, registry), and the mux's handler tables are written only by registration methods", 3)
 	R6 := r.Rule("R6", "handler functions pass on exactly the context and Sender they were given", 8)
 
 	if a.listenFn == nil {
@@ -314,6 +314,37 @@ func c17(r *Report, s *Sem) {
 	}
 	sort.Strings(offenders)
 	r.Check(R5, "package-level variables written at run time", "-", len(offenders) == 0, fmt.Sprintf("variables able to hold per-session data: %v", offenders))
+	// per-session code (methods of the channel types and the mux's dispatch functions) must not touch package-level
+	// containers at all: a pool, cache or registry shared by all sessions is a path for data to cross between them
+	var shared []string
+	for _, fn := range p.LimeFuncs() {
+		k := s.recvKind(fn)
+		perSession := k == "channel" || k == "server" || k == "client" || topLevel(fn) == a.listenFn || topLevel(fn) == a.receiver
+		if t := topLevel(fn); typeIs(recvType(t), p.Type("EnvelopeMux")) && strings.HasPrefix(t.Name(), "handle") {
+			perSession = true
+		}
+		if !perSession {
+			continue
+		}
+		eachInstr(fn, func(in ssa.Instruction) {
+			for _, op := range in.Operands(nil) {
+				g, ok := (*op).(*ssa.Global)
+				if !ok || g.Pkg != p.Lime {
+					continue
+				}
+				elem := g.Type().(*types.Pointer).Elem()
+				if isErrorType(elem) {
+					continue
+				}
+				if b, isBasic := elem.Underlying().(*types.Basic); isBasic && b.Info()&types.IsConstType != 0 {
+					continue
+				}
+				shared = append(shared, g.Name()+" in "+fnName(fn))
+			}
+		})
+	}
+	sort.Strings(shared)
+	r.Check(R5, "per-session code / no package-level containers", "-", len(shared) == 0, fmt.Sprintf("package-level state used by channel/dispatch code: %v", uniq(shared)))
 	muxT := p.Type("EnvelopeMux")
 	okMux := true
 	var badW []string
